@@ -35,7 +35,7 @@ def weights_of(kind, shape):
     y, x = np.indices(shape); c = (shape[0] // 2, shape[1] // 2)
     r = np.hypot(y - c[0], x - c[1]); w = np.ones(shape)
     R = min(c)
-    if kind == 'ring': w[(r > 0.45 * R) & (r < 0.7 * R)] = 0      # radii without data
+    if kind == 'ring': w[(r > 0.3 * R) & (r < 0.85 * R)] = 0      # radii without data
     elif kind == 'rim': w[r > 0.8 * R] = 0
     elif kind == 'soft': w = 1.0 + 0.5 * np.cos(r)
     return w
